@@ -928,19 +928,30 @@ def substitute_nonconf(op, slot, rng):
 
 def changed_roots(step):
     """
-    Names of snapshot roots with a real change. A root (argument) whose post node merely became a reference to a path
-    under another root (the operation stored that very object somewhere else) is aliasing, not a change of the object.
+    Names of snapshot roots with a real change. Where an object reachable from one root (typically an argument, or an
+    item inside it) merely became *also* reachable from another root visited earlier (the operation stored that very
+    object), the path-based snapshot shows a ("ref", other path) node and the paths below it disappear: that is
+    aliasing, not a change of the object, and is not attributed to the root.
     """
     pre, post = step.pre["snap"], step.post["snap"]
     if pre == post:
         return []
-    roots = list(step.pre["roots"])
+    roots = sorted(step.pre["roots"], key=len, reverse=True)
+
+    def root_of(p):
+        return next((r for r in roots if p == r or p.startswith((r + ".", r + "[", r + "{", r + "<"))), p)
+
+    changed = pre.changed_paths(post)
+    alias_prefixes = []
+    for p in changed:
+        node = post.nodes.get(p)
+        if node and node[0] == "ref" and pre.nodes.get(p, ("",))[0] != "ref" and root_of(node[1]) != root_of(p):
+            alias_prefixes.append(p)
     out = set()
-    for p in pre.changed_paths(post):
-        root = next((r for r in sorted(roots, key=len, reverse=True) if p == r or p.startswith((r + ".", r + "[", r + "{", r + "<"))), p)
-        out.add(root)
-    for r in list(out):
-        node = post.nodes.get(r)
-        if node and node[0] == "ref" and pre.nodes.get(r, ("",))[0] != "ref":
-            out.discard(r)
+    for p in changed:
+        if p in alias_prefixes:
+            continue
+        if p not in post.nodes and any(p.startswith((a + ".", a + "[", a + "{", a + "<")) for a in alias_prefixes):
+            continue  # below an aliased node: no longer walked from this root
+        out.add(root_of(p))
     return sorted(out)
